@@ -100,9 +100,15 @@ fn main() {
     let args: Vec<String> = std::env::args().collect();
     let cmd = args.get(1).cloned().unwrap_or_default();
     // Expected panics (fault injection, forged handles) must not flood stderr.
-    if std::env::var("HX_VERBOSE_PANICS").is_err() {
-        std::panic::set_hook(Box::new(|_| {}));
-    }
+    // The hook records WHERE the last panic of this thread was raised: an unexpected panic that comes out of the library's own
+    // sources is the library's failure (a verdict), one raised in the harness is the harness' (a machinery error).
+    let verbose = std::env::var("HX_VERBOSE_PANICS").is_ok();
+    std::panic::set_hook(Box::new(move |info| {
+        hx::sys::note_panic_location(info.location().map(|l| format!("{}:{}", l.file(), l.line())).unwrap_or_default());
+        if verbose {
+            eprintln!("{}", info);
+        }
+    }));
     if cmd == "limit" {
         let depth: usize = arg(&args, "--depth").map(|s| s.parse().unwrap()).unwrap_or(1);
         let t0 = std::time::Instant::now();
